@@ -27,6 +27,10 @@ func newFnVC(P *Prog, f *ssa.Function, ct *Contract) *FnVC {
 // machinery errors.
 func verifyFunc(P *Prog, f *ssa.Function, ct *Contract) (c *FnVC, err error) {
 	c = newFnVC(P, f, ct)
+	splitCtx.P = P
+	if f.Pkg != nil {
+		splitCtx.pkg = f.Pkg.Pkg.Path()
+	}
 	defer func() {
 		if r := recover(); r != nil {
 			buf := make([]byte, 4096)
